@@ -1,1 +1,87 @@
-From CG Require Import Spec.Sets.
+(* Props/C02.v — C02: metadata-carrying operations keep every event intact, only trimming
+   spans.  Statements only.  The reference semantics is Spec/Sets.v ([ref], [minus_runs],
+   [inter_ref], [clipW]); payloads stand for all non-time fields of an event. *)
+From CG Require Import Proofs.Defs Proofs.Merge Proofs.Diff Proofs.InterDisjoint Proofs.Clip
+     Proofs.RefSpec.
+
+(* union: every event of every operand is returned exactly once, untouched — any operands *)
+Theorem C02_union_events_exact : forall lt ss, Permutation (merge_by lt ss) (concat ss).
+Proof. exact merge_perm. Qed.
+Print Assumptions C02_union_events_exact.
+
+(* filter: exactly the events satisfying the predicate, in order, untouched *)
+Theorem C02_filter_events_exact : forall env s f a b rv,
+  fetch env (Filt s f) a b rv = filter (feval env f) (fetch env s a b rv).
+Proof. reflexivity. Qed.
+Print Assumptions C02_filter_events_exact.
+
+(* the window clips each event of a sorted stream once, payload kept (list equality) *)
+Theorem C02_slice_clips_each_event : forall m xs a b,
+  sorted_start xs ->
+  inter_sweep [xs; [mkI a b Plain]] (emit_sel [m; true]) = flat_map (clipW a b) xs.
+Proof. exact clip_sweep_masks. Qed.
+Print Assumptions C02_slice_clips_each_event.
+
+(* difference: for each source event, one copy per maximal surviving run, payload and
+   None-encoding kept; ARBITRARY subtractors; source internally non-overlapping (KF-D1) *)
+Theorem C02_difference_events_exact_partial : forall src subs,
+  Forall wf_ivl src -> Forall canon_ivl src -> disjoint_sorted src ->
+  Forall wf_ivl subs -> sorted_start subs ->
+  dsweep src subs = flat_map (fun x => minus_runs x subs) src.
+Proof. exact dsweep_minus_runs. Qed.
+Print Assumptions C02_difference_events_exact_partial.
+
+(* what [minus_runs] means: copies of x (same payload), strictly separated (maximal runs),
+   covering exactly x minus the holes — for arbitrary holes *)
+Theorem C02_minus_runs_meaning : forall x holes,
+  wf_ivl x -> canon_ivl x ->
+  (forall f, In f (minus_runs x holes) -> frag_of x f) /\
+  separatedP (minus_runs x holes) /\
+  (forall t, covers (minus_runs x holes) t = inside x t && negb (covers holes t)).
+Proof. exact minus_runs_spec. Qed.
+Print Assumptions C02_minus_runs_meaning.
+
+(* even with overlapping source events nothing is invented or altered: every fragment is a
+   trimmed copy of one source event (what fails there is completeness, KF-D1) *)
+Theorem C02_difference_never_invents : forall src subs,
+  Forall wf_ivl src -> Forall canon_ivl src -> Forall wf_ivl subs -> sorted_start subs ->
+  forall f, In f (dsweep src subs) -> exists x, In x src /\ frag_of x f.
+Proof. exact dsweep_fragments. Qed.
+Print Assumptions C02_difference_never_invents.
+
+(* intersection of k >= 2 operands with mask flags: the multiset of results is the reference
+   semantics — each emitting operand contributes its own event trimmed to every region where
+   one event of every operand overlaps; masks contribute only when all operands are masks.
+   Operands internally non-overlapping (boundary of KF-D2). *)
+Theorem C02_intersection_events_exact_partial : forall masks streams,
+  (2 <= length streams)%nat ->
+  Forall (Forall wf_ivl) streams -> Forall disjoint_sorted streams ->
+  Permutation (inter_sweep streams (emit_sel masks)) (inter_ref masks streams).
+Proof. exact inter_sweep_is_ref. Qed.
+Print Assumptions C02_intersection_events_exact_partial.
+
+(* for ANY operand streams (no disjointness): an intersection never invents or alters events —
+   each result is a trimmed copy of one event of an emitting operand and lies inside the
+   coverage of every operand *)
+Theorem C02_intersection_never_invents : forall streams sel x,
+  (2 <= length streams)%nat -> In x (inter_sweep streams sel) ->
+  fstart x < fend x /\
+  (exists i l c, nth_error streams i = Some l /\ sel i = true /\ In c l /\ pl x = pl c /\
+                 fstart c <= fstart x /\ fend x <= fend c) /\
+  forall t, inside x t = true -> forallb (fun l => covers l t) streams = true.
+Proof. exact inter_sweep_sound_cover. Qed.
+Print Assumptions C02_intersection_never_invents.
+
+(* KF-D2 witness kept as a theorem about the model: an operand holding two equal-span events
+   loses one of them (event 5 is never returned) *)
+Theorem C02_intersection_equal_spans_refuted :
+  let a := [mkI (Some 3) (Some 4) (Rich 2); mkI (Some 6) (Some 7) (Rich 3)] in
+  let b := [mkI (Some 3) (Some 4) (Rich 4); mkI (Some 3) (Some 4) (Rich 5)] in
+  existsb (fun o => pl_eqb (pl o) (Rich 5)) (inter_sweep [a; b] (fun _ => true)) = false.
+Proof. vm_compute. reflexivity. Qed.
+Print Assumptions C02_intersection_equal_spans_refuted.
+
+(* the check's multiset oracle is sound and complete for permutations *)
+Theorem C02_oracle_is_permutation : forall l1 l2, mset_eqb l1 l2 = true <-> Permutation l1 l2.
+Proof. exact mset_eqb_iff. Qed.
+Print Assumptions C02_oracle_is_permutation.
